@@ -9,13 +9,66 @@ from translator import t5_patterns
 ID = 'C04'
 TRANSLATORS = [t5_patterns.translate]
 PROPERTY_FILE = 'Properties/C04.v'
-THEOREMS = []
-PARTIAL = {}
-LEVEL_TEXT = 'pending'
-LEVEL_NOTE = 'pending'
-TECHNIQUE = 'pending'
-TRUSTED = []
-ASSUMPTIONS = []
+THEOREMS = ['C04_max_pattern', 'C04_complement_bits', 'C04_eval_pattern_den', 'C04_eval_pattern_unsupported',
+            'C04_eval_pattern_short', 'C04_generate_inputs_tt', 'C04_patterns_are_truth_tables',
+            'C04_simulation_total', 'C04_rows_cover', 'C04_dont_care_table_closed_form',
+            'C04_dont_care_table_is_cone_function', 'C04_equal_patterns_equal_functions',
+            'C04_complementary_patterns_negated_functions', 'C04_ConeEval_functional', 'C04_cone_eval_sound',
+            'C04_ConeEval_Eval', 'C04_check_step_sound', 'C04_check_step_map_sound_Eval',
+            'C04_care_set_substitution_partial', 'C04_accepted_step_preserves_outputs', 'C04_care_covers_sound',
+            'C04_cex_ternary_and', 'C04_cex_missing_node', 'C04_example_cone', 'C04_example_simulation', 'C04_example_step_accepted', 'C04_example_step_rejected',
+            'C04_example_care_set_step']
+PARTIAL = {
+    'C04 (the property as a whole)':
+        'NOT proved for the implementation: minimize_subcircuits depends on an external cut enumerator, on the model '
+        'returned by a SAT solver and on a hand-written search loop (cut filtering, node states, the mixed '
+        'trivial/negated-output branch, _rename_subcircuit_gates); none of that is modelled or verified. The clauses '
+        '"same inputs / outputs / truth table, not more gates, no FailedValidationError, no internal error" are checked '
+        'end to end by the oracle on every run (several root causes are recorded as known findings). What is proved: '
+        'the pattern simulation for all widths and the soundness of a validator for single replacement steps',
+    'C04_care_set_substitution_partial':
+        'validator form of the care-set substitution theorem of DESIGN 7/C04: stated for the circuits before and '
+        'after a step that check_subst accepts (frame conditions are checked executably on the two states), not as a '
+        'theorem about the function replace_subcircuit; labels of leaves and outputs are the same before and after '
+        '(what _rename_subcircuit_gates arranges); silent about the replaced internal gates (their labels are reused); '
+        'the care-set hypothesis is discharged per step by care_covers (C04_care_covers_sound) or by comparing all '
+        '2^k leaf vectors. The steps of the "all outputs trivial" branch (direct rewiring + remove_gate, no '
+        'replace_subcircuit call) are covered by C04_equal_patterns_equal_functions and the end-to-end oracle only',
+}
+LEVEL_TEXT = ('translation validation with a verified validator, plus proof of the pattern simulation. Proved in Coq for '
+              'the model (eval_pattern / max_pattern / _generate_inputs_tt regenerated from the current source by '
+              'translator t5, the simulation loops hand-written and compared with _get_subcircuits, _eval_dont_cares, '
+              'evaluate_truth_table_with_dont_cares on generated cones): for every cut size the patterns are the truth '
+              'tables of the cone nodes over the cut, the table given to the synthesiser is the cone function on the '
+              'care rows, equal / complementary patterns mean equal / negated functions; check_step / check_subst are '
+              'sound (an accepted step preserves the value of every surviving gate and of every circuit output under '
+              'every assignment whose leaf vector was compared). On every run each Circuit.replace_subcircuit call made by '
+              'minimize_subcircuits is recorded, replayed through the model (exact state equality) and accepted by '
+              'check_subst on all 2^k leaf vectors or on the care set (with care_covers). The search is not verified: '
+              'the end-to-end clauses are checked by brute force on every generated run; known defects are listed in '
+              'known_findings.json')
+LEVEL_NOTE = ('Coq kernel + vm_compute; translator t5 (Python ast -> Gallina, N arithmetic; UnsupportedOperationError is '
+              'modelled as Err GenerationError); hand-written model of the simulation loops and of replace_subcircuit; '
+              'recorder that wraps Circuit.replace_subcircuit and _Subcircuit.evaluate_truth_table_with_dont_cares from the '
+              'harness process; pysat / mockturtle shims (the real cut enumerator and solver are absent: any valid cut '
+              'family is inside the property\'s quantifier, each step is validated rather than assumed). Hypotheses of the '
+              'theorems: NoDup leaves, cone_okb (supported types, exact arity, operands before users), operands < 2^(2^n); '
+              'for the substitution theorem: acceptance by check_subst and a compared leaf vector under the assignment')
+TECHNIQUE = ('proof of the pattern simulation and of a step validator + translation validation of every replacement step '
+             '+ end-to-end oracle')
+TRUSTED = ['hypotheses of C04_eval_pattern_den / C04_patterns_are_truth_tables, each witnessed necessary by a proved '
+           'counterexample: (a) pattern_arity t = Some (length ops) - eval_pattern reads only operands[0] (NOT) or '
+           'operands[0], operands[1] (the ten binary types) and ignores further operands, so for an AND/OR/XOR/NAND/NOR/'
+           'NXOR gate with three or more operands (legal in cirbo) its result is not the gate\'s denotation '
+           '(C04_cex_ternary_and; on the implementation: inputs a,b,c, g = NXOR(a,b,c), h = AND(g,a), output h gives a '
+           'wrong truth table with the full cut family); (b) cone_okb - every operand of a cone node is a leaf or an '
+           'earlier listed node, otherwise the defaultdict supplies pattern 0 (C04_cex_missing_node; this is the recorded '
+           'finding for cut families not closed under sub-cuts); (c) operands < 2^(2^n): the model uses N, where '
+           'max_pattern - x truncates at 0 while Python would go negative (the theorem shows the range is preserved)']
+ASSUMPTIONS = ['the circuits generated for the end-to-end runs use NOT with one and the ten binary types with two operands '
+               '(harness/subcorr.py); gates with three or more operands are outside the generated family',
+               'recorded steps whose replace_subcircuit call raises are replayed through the model (same error kind) '
+               'but there is no result state to validate']
 
 
 def gen_case(rng, i):
